@@ -1,10 +1,10 @@
 // C46 harness: drives the REAL file-system plugin (src/plugins/file_system/s4u_FileSystem.cpp) inside a simulation.
 // stdin : one case per line
-//   case <id> disks <nd> { <mount> <capacity> <nfiles> { <name> <size> }* }*  ops <nops> <op>*
+//   case <id> <legal|malformed> disks <nd> { <mount> <capacity> <nfiles> { <name> <size> }* }*  ops <nops> <op>*
 //   ops:  o <slot> <fullpath> | c <slot> | r <slot> <n> | w <slot> <n> <inside:0|1> | s <slot> <offset> <origin:0|1|2>
 //         | m <slot> <fullpath> | u <slot>
 // stdout: per case, one `init` line and one line per op (query => observation):
-//   init <id> disks ... => D <used> <free> <n> {<name> <size>}* D ...
+//   init <id> <legal|malformed> disks ... => D <used> <free> <n> {<name> <size>}* D ...
 //   op <id> <step> <op tokens> => ret <r> H {<slot> <size> <tell>}* D <used> <free> <n> {<name> <size>}* D ...
 // Each case runs on its own host (own disks, own actor) of one platform built with the C++ API; the disks get their
 // capacity / mount point / initial content through the "size", "mount", "content" properties exactly like an XML platform.
@@ -113,11 +113,12 @@ int main(int argc, char** argv)
     if (tok != "case")
       continue;
     auto* c = new Case;
-    is >> c->id;
+    std::string tag;
+    is >> c->id >> tag;
     size_t nd;
     is >> tok >> nd;
     std::ostringstream hd;
-    hd << "disks " << nd;
+    hd << tag << " disks " << nd;
     for (size_t i = 0; i < nd; i++) {
       DiskSpec d;
       size_t nf;
